@@ -5,6 +5,7 @@
 //   oracle   : cycle times strictly increase, >= start, < end; every cycle time was requested;
 //              every requested time inside the window got a cycle in which the requester ran.
 #include "hk.h"
+#include "hk_c09.h"
 
 #ifndef KNODES
 #define KNODES 2
@@ -21,12 +22,15 @@
 #ifndef NDD
 #define NDD 2
 #endif
+#ifndef NNS
+#define NNS 2   // self-scheduling steps of the nested sampler (0 = no nested child)
+#endif
 
 using namespace hk;
 
 namespace {
 std::int64_t g_delta[KNODES][JEVALS];     // delta requested by node k at its j-th evaluation (0: none)
-constexpr int MAXREQ = (KNODES + 1) * (JEVALS + 2);
+constexpr int MAXREQ = (KNODES + 2) * (JEVALS + 3);
 DateTime g_input_ticks[JEVALS + 2];
 int g_ninput = 0;
 struct Req { DateTime t; int node; };
@@ -79,6 +83,29 @@ struct Delay {
         out.set(n.get());
     }
 };
+// Work inside a NESTED child graph: a sampler that reads the outer port passively and wakes itself by NS_D[j].  The outer
+// port (node 0) ticks on its own, so the nested node is woken by ticks that nothing in the child consumes while the
+// child has a wake-up pending - the parent's slot for the nested node must be restored to the child's wake-up each time.
+std::int64_t g_ns[JEVALS + 2];
+constexpr int NESTED_ID = KNODES + 1;
+struct NSampler {
+    static constexpr auto name = "nsampler";
+    static constexpr bool schedule_on_start = true;
+    static void eval(In<"a", TS<Int>, InputActivity::Passive, InputValidity::Unchecked> a, NodeScheduler s, State<Int> n, DateTime now, Out<TS<Int>> out) {
+        Int j = n.get();
+        if (g_nruns < MAXREQ + 8) g_runs[g_nruns++] = Run{now, NESTED_ID};
+        if (j < NNS) {
+            std::int64_t d = g_ns[j];
+            if (d > 0) {
+                s.schedule(TimeDelta{d});
+                if (g_nreq < MAXREQ) g_req[g_nreq++] = Req{now + TimeDelta{d}, NESTED_ID};
+            }
+        }
+        out.set(j);
+        n.set(j + 1);
+    }
+};
+struct GNested { static constexpr auto name = "c02_nested"; static Port<TS<Int>> compose(Wiring &w, Port<TS<Int>> x) { return wire<NSampler>(w, x); } };
 struct Sink {
     static constexpr auto name = "sink";
     static void eval(In<"a", TS<Int>> a, State<Int> acc) { acc.set(acc.get() + a.value()); }
@@ -89,7 +116,7 @@ struct Top {
         for (int k = 0; k < KNODES; k++) {
             auto p = wire<Sched>(w, Int{k});
             wire<Sink>(w, p);
-            if (k == 0) { auto dl = wire<Delay>(w, p); wire<Sink>(w, dl); }
+            if (k == 0) { auto dl = wire<Delay>(w, p); wire<Sink>(w, dl); if (NNS > 0) { auto ns = hk::c09::nested1<GNested>(w, p); wire<Sink>(w, ns); } }
         }
     }
 };
@@ -100,12 +127,14 @@ extern "C" int harness_main() {
     for (int k = 0; k < KNODES; k++)
         for (int j = 0; j < JEVALS; j++) g_delta[k][j] = verif_range("delta", 0, DMAX);
     for (int j = 0; j < NDD; j++) g_dd[j] = verif_range("ddelta", 0, DMAX);
+    for (int j = 0; j < NNS; j++) g_ns[j] = verif_range("nsdelta", 0, DMAX);
     std::int64_t s0 = verif_range("start", 0, 1000);
     std::int64_t win = verif_range("window", 1, WMAX);
     g_start = at_us(s0);
     g_end = g_start + TimeDelta{win};
     // schedule_on_start: every node asks for the start time
     for (int k = 0; k < KNODES; k++) g_req[g_nreq++] = Req{g_start, k};
+    if (NNS > 0) g_req[g_nreq++] = Req{g_start, NESTED_ID};  // schedule_on_start inside the nested child
 
     RecordingObserver<256> obs{&g_log};
     run_sim(build_graph<Top>(), g_start, g_end, &obs);
@@ -151,6 +180,11 @@ extern "C" int harness_main() {
     verif_assert(ok_asked, "C02.node_ran_only_when_requested");
     if (beyond) verif_reach("request_beyond_end");
     if (rearm_case) verif_reach("input_tick_while_own_wakeup_pending");
+    bool nested_case = false;
+    for (int r = 0; r < g_nreq; r++)
+        if (g_req[r].node == NESTED_ID)
+            for (int q = 0; q < g_nruns; q++) nested_case |= (g_runs[q].node == 0) & (g_runs[q].t < g_req[r].t) & (g_runs[q].t > g_req[r].t - TimeDelta{DMAX + 1}) & (g_req[r].t < g_end) & (g_req[r].t > g_start);
+    if (nested_case) verif_reach("outer_tick_while_nested_wakeup_pending");
     if (cycles >= 3) verif_reach("three_cycles");
     verif_log("cycles", cycles);
     verif_reach("end");
